@@ -332,10 +332,60 @@ def _duration_offsets(ctx):
     return n
 
 
+rule("C06.q", "the ramp limit of a step is the ramp rate times the step length, nothing else: the value handed to the ramp rows is built from "
+              "self.ramp and the step length of the grid only - no further factor (a conversion between ramp_freq and the grid frequency re-reads "
+              "`ramp` as 'per step of another frequency': with ramp_freq = 15 min on an hourly grid the output may change by 4 x ramp per step)", floor=1)
 rule("C06.p", "what the set-up converts, its helpers use converted: when setup_optim_problem computes a local of the same name as an attribute "
               "kept from the constructor (durations and ramp lengths converted to grid steps, rates to volumes per step) and hands it to a helper, "
               "the helper does not go back to `self.<name>` - that is the value in the user's units (ramp_freq / main time unit)", floor=0,
      props=["C06", "C12"])
+
+
+def _ramp_factors(ctx):
+    p = ctx.p
+    fn = p.fn_opt("CHPAsset.setup_optim_problem")
+    if fn is None:
+        ctx.ob("C06.q", "CHPAsset", "ramp limit", None, "CHPAsset.setup_optim_problem not found")
+        return
+    ff = ctx.flow(fn)
+    # the argument bound to the parameter `ramp` of the ramp helper
+    arg = None
+    for st in au.walk_stmts(fn.body):
+        for c in au.walk_own(st):
+            if isinstance(c, ast.Call) and "ramp" in (au.method_name(c) or "") and (au.method_name(c) or "").startswith("_add_constraints"):
+                a = au.arg_or_kw(c, 1, "ramp")
+                if a is not None:
+                    arg = (a, st)
+    if arg is None:
+        ctx.ob("C06.q", fn, "ramp limit", None, "the call that hands the ramp to the ramp rows was not found")
+        return
+    factors, seen = [], set()
+
+    def collect(e, at, depth=0):
+        if depth > 6:
+            return
+        if isinstance(e, ast.IfExp):
+            collect(e.body, at, depth + 1)
+            collect(e.orelse, at, depth + 1)
+        elif isinstance(e, ast.BinOp) and isinstance(e.op, (ast.Mult, ast.Div)):
+            collect(e.left, at, depth + 1)
+            collect(e.right, at, depth + 1)
+        elif isinstance(e, ast.Name):
+            for d in ff.defs(e.id, at):
+                if d.kind == "assign" and d.value is not None and id(d.node) not in seen:
+                    seen.add(id(d.node))
+                    collect(d.value, d.node, depth + 1)
+        elif au.is_none(e) or au.const_num(e) == 1:
+            pass
+        else:
+            factors.append(e)
+    collect(arg[0], arg[1])
+    extra = [f for f in factors if not (au.path(f) == "self.ramp" or (isinstance(f, ast.Subscript) and au.terminal(f.value) == "dt") or (isinstance(f, ast.Attribute) and f.attr == "dt"))]
+    ctx.ob("C06.q", fn, "factors of the ramp limit", not extra if factors else None,
+           "besides self.ramp and the step length the ramp limit carries the factor %s: 'the output changes by at most the ramp between consecutive "
+           "steps' then holds for another ramp than the one given - with ramp_freq = '15min' on an hourly grid 4 x ramp per step (dispatch 4, 8, 10 with "
+           "ramp 1), also in the first step relative to the last dispatch" % (au.short(extra[0], 70) if extra else ""), node=arg[1],
+           ok_detail="self.ramp x step length")
 
 
 def _shadowed_attrs(ctx):
@@ -386,8 +436,9 @@ rule("C06.m", "an aggregated implication row (+1 on a slice of k boolean variabl
               "by the horizon", floor=1)
 
 
-@analysis("chp", ["C06.a", "C06.b", "C06.c", "C06.h", "C06.i", "C06.k", "C06.m", "C06.n", "C06.p"])
+@analysis("chp", ["C06.a", "C06.b", "C06.c", "C06.h", "C06.i", "C06.k", "C06.m", "C06.n", "C06.p", "C06.q"])
 def run(ctx):
+    _ramp_factors(ctx)
     _shadowed_attrs(ctx)
     n_n = _duration_offsets(ctx)
     ctx.require(n_n >= 3, "fewer than 3 duration-driven offsets found in the CHP classes", rules=["C06.n"])
